@@ -42,8 +42,14 @@ def rand_value(rng, depth=0, maxdepth=3):
         return node("s", rng.choice(STR_POOL))
     if k in (6, 7):
         return node("a", c=[rand_value(rng, depth + 1, maxdepth) for _ in range(rng.randrange(4))])
-    keys = rng.sample(KEY_POOL, rng.randrange(4))
-    return node("o", c=[node("m", key, [rand_value(rng, depth + 1, maxdepth)]) for key in keys])
+    keys = rng.sample(KEY_POOL, rng.choice([0, 1, 2, 3, 3, 4, 6]))
+    members = []
+    for key in keys:
+        # a string value is sometimes the text of one of the object's own keys (an earlier or a later one):
+        # values and keys share the string storage and, in the slot list, the same chain
+        v = node("s", rng.choice(keys)) if rng.random() < 0.25 else rand_value(rng, depth + 1, maxdepth)
+        members.append(node("m", key, [v]))
+    return node("o", c=members)
 
 
 # ------------------------------------------------------------------ JSON spelling (RFC 8259 only)
@@ -273,6 +279,77 @@ def gen_long_tokens(rng, o, n):
             text = b'{"k":[' + tok + b"]}" + rng.choice([b"", b" x"])
         f = rng.choice([TRUE, TRUE, FALSE, node("o", c=[node("m", b"b", [TRUE])]), node("a", c=[FALSE])])
         out.append(line(text, o, lim=rng.choice([2, 10]), f=f, tag="longtoken"))
+    return out
+
+
+def gen_long_strings(rng, o, maxstr, n):
+    """Strings and keys whose DECODED length sits on both sides of the longest string the build can store
+    (maxstr - 1, maxstr, maxstr + 1, maxstr + 40), with escapes that shorten (\\n) or lengthen (\\u00e9) the
+    text relative to its bytes; as value, as key, first and later in a container, kept and skipped by a filter.
+    The feed lines carry maxstr in their options: JsonReader.tla answers NoMemory for a stored string beyond it."""
+    oo = dict(o, maxstr=maxstr)
+    out = []
+    for _ in range(n):
+        target = maxstr + rng.choice([-1, 0, 0, 1, 1, 2, 40])
+        body = bytearray()
+        decoded = 0
+        while decoded < target:
+            k = rng.randrange(12)
+            if k == 0 and decoded + 1 <= target:
+                body += b"\\n"
+                decoded += 1
+            elif k == 1 and o["unicode"] and decoded + 2 <= target:
+                body += b"\\u00e9"
+                decoded += 2
+            elif k == 2 and o["unicode"] and decoded + 4 <= target:
+                body += b"\\ud83d\\ude00"
+                decoded += 4
+            else:
+                body += bytes([rng.choice(b"abcdefghijklmnopqrstuvwxyz 0123456789")])
+                decoded += 1
+        tok = b'"' + bytes(body) + b'"'
+        ctx = rng.randrange(7)
+        if ctx == 0:
+            text = tok
+        elif ctx == 1:
+            text = b"[" + tok + b",1]"
+        elif ctx == 2:
+            text = b'[1,"x",' + tok + b"]"
+        elif ctx == 3:
+            text = b"{" + tok + b":1}"
+        elif ctx == 4:
+            text = b'{"a":' + tok + b',"b":2}'
+        elif ctx == 5:
+            text = b'{"a":1,' + tok + b":[true]}" + rng.choice([b"", b" "])
+        else:
+            text = b"[" + tok + b"," + tok + b"]"
+        f = rng.choice([TRUE, TRUE, TRUE, FALSE, node("o", c=[node("m", b"b", [TRUE])]), node("a", c=[FALSE])])
+        out.append(line(text, oo, lim=10, f=f, tag="longstring"))
+    return out
+
+
+def gen_slot_limit(rng, o, slots, n):
+    """Inputs whose slot demand sweeps across the number of slots the build can address (`slots`, give or take the
+    pool geometry): arrays of scalars ending in an object, objects with many members, an object inside the last
+    element.  Either the specification's result or NoMemory is legitimate (tag "slotlimit"); what matters is the
+    state of the document afterwards (no member without a value, serializable, clearable, nothing leaked)."""
+    out = []
+    for _ in range(n):
+        kind = rng.randrange(4)
+        k = slots + rng.randrange(-14, 6)
+        if kind == 0:      # k-3 one-slot elements, then an object with one member (3 slots)
+            body = b",".join([rng.choice([b"0", b"1", b"true", b"null"]) for _ in range(max(0, k - 3))])
+            text = b"[" + body + (b"," if body else b"") + b'{"k":1}]'
+        elif kind == 1:    # members: two slots each
+            m = max(1, k // 2)
+            text = b"{" + b",".join(b'"k%d":%d' % (i, i % 10) for i in range(m)) + b"}"
+        elif kind == 2:    # elements with an extension slot (two slots each), then a nested member
+            m = max(0, (k - 4) // 2)
+            text = b"[" + b",".join([b"1099511627776"] * m) + (b"," if m else b"") + b'[{"a":"b"}]]'
+        else:              # a repeated key after the fill: the value is replaced, not added
+            m = max(1, (k - 2) // 2)
+            text = b"{" + b",".join(b'"k%d":%d' % (i, i % 10) for i in range(m)) + b',"k0":[1]}'
+        out.append(line(text, o, lim=10, tag="slotlimit"))
     return out
 
 
